@@ -15,3 +15,4 @@ import DvidModel.Props.C19
 import DvidModel.Props.C16
 import DvidModel.Props.C13
 import DvidModel.Props.C14
+import DvidModel.Props.C17
